@@ -14,6 +14,7 @@ import (
 	"fmt"
 	"io"
 	"net"
+	"os"
 	"sort"
 	"strings"
 	"time"
@@ -82,18 +83,52 @@ type Scn struct {
 	Creds    map[string]string `json:"creds"`
 	Form     string            `json:"form,omitempty"`     // "" = JSON configuration; "caddyfile" = the same options written as a Caddyfile block and parsed by the handler's UnmarshalCaddyfile
 	D        *Dialogue         `json:"dialogue,omitempty"` // replay
+	// Rotate: commands and passwords are written as {env.*} placeholders; a first handler is
+	// provisioned while the variables hold OTHER values (the configuration before a secret was
+	// rotated and the config reloaded), then the variables are set to the values of this
+	// scenario and the handler under test is provisioned from the same raw configuration
+	Rotate bool `json:"rotate,omitempty"`
+}
+
+// rawConfig: the configuration as written (placeholders unresolved) and the environment that
+// resolves it to the scenario's commands and credentials.
+func rawConfig(sc *Scn) (cmds []string, creds map[string]string, env map[string]string) {
+	if !sc.Rotate {
+		return sc.Commands, sc.Creds, nil
+	}
+	env = map[string]string{}
+	for i, c := range sc.Commands {
+		k := fmt.Sprintf("VERIF_C16_CMD%d", i)
+		env[k] = c
+		cmds = append(cmds, "{env."+k+"}")
+	}
+	if sc.Creds != nil {
+		creds = map[string]string{}
+		var users []string
+		for u := range sc.Creds {
+			users = append(users, u)
+		}
+		sort.Strings(users)
+		for i, u := range users {
+			k := fmt.Sprintf("VERIF_C16_PW%d", i)
+			env[k] = sc.Creds[u]
+			creds[u] = "{env." + k + "}"
+		}
+	}
+	return cmds, creds, env
 }
 
 // handlerConfig returns the handler's JSON configuration: stated directly, or obtained from
 // the equivalent Caddyfile block the way the Caddyfile adapter does.
 func handlerConfig(sc *Scn) (json.RawMessage, error) {
 	if sc.Form != "caddyfile" {
+		cmds, creds, _ := rawConfig(sc)
 		cfg := map[string]any{"handler": "socks5"}
-		if len(sc.Commands) > 0 {
-			cfg["commands"] = sc.Commands
+		if len(cmds) > 0 {
+			cfg["commands"] = cmds
 		}
-		if len(sc.Creds) > 0 {
-			cfg["credentials"] = sc.Creds
+		if len(creds) > 0 {
+			cfg["credentials"] = creds
 		}
 		return hm.J(cfg), nil
 	}
@@ -265,6 +300,27 @@ func execute(x *explore.Exec, sc *Scn, d *Dialogue) *result {
 		if err != nil {
 			panic(err) // forms the parser rejects are filtered out in scenarios()
 		}
+		if _, _, env := rawConfig(sc); sc.Rotate {
+			// the configuration before the rotation: same raw text, other values
+			stale := map[string]string{"CONNECT": "ASSOCIATE", "ASSOCIATE": "BIND", "BIND": "CONNECT"}
+			for k, v := range env {
+				if strings.HasPrefix(k, "VERIF_C16_CMD") {
+					os.Setenv(k, stale[v])
+				} else {
+					os.Setenv(k, "stale-"+v)
+				}
+			}
+			old := &layer4.Server{}
+			if err := json.Unmarshal(hm.J([]map[string]any{{"handle": []json.RawMessage{cfg}}}), &old.Routes); err != nil {
+				panic(err)
+			}
+			if err := old.Provision(ctx, nop); err != nil {
+				panic(fmt.Sprintf("provision (before rotation) %s: %v", hm.J(sc), err))
+			}
+			for k, v := range env {
+				os.Setenv(k, v)
+			}
+		}
 		srv := &layer4.Server{}
 		if err := json.Unmarshal(hm.J([]map[string]any{{"handle": []json.RawMessage{cfg}}}), &srv.Routes); err != nil {
 			panic(err)
@@ -391,6 +447,11 @@ func scenarios(tier string, yield func(any) bool) {
 			if !yield(&Scn{Commands: cs, Creds: cr}) {
 				return
 			}
+			if len(cs)+len(cr) > 0 && len(cs) <= 1 {
+				if !yield(&Scn{Commands: cs, Creds: cr, Rotate: true}) {
+					return
+				}
+			}
 			cf := &Scn{Commands: cs, Creds: cr, Form: "caddyfile"}
 			if len(cs)+len(cr) == 0 {
 				continue // nothing to write
@@ -410,7 +471,7 @@ func main() {
 		ID:          "C16",
 		Level:       "model_checking",
 		Rule:        "the handler configured in JSON and through the equivalent Caddyfile block (its UnmarshalCaddyfile) x all 8 command subsets x credential maps {none, one pair, two pairs, empty user name, empty password} x client dialogues from a grammar: greeting (version 5/4, 7 method lists), optional username/password sub-negotiation (version 1/5, right/wrong/empty user and password), request (version 5/4, command 0..4 and 255, address type 1/3/4/5) and every truncation of a permitted dialogue; the real handler and go-socks5 run under the scheduler, every net.Dial / net.ListenUDP of the library lands in the virtual network, which records it; states = distinct (configuration, dialogue) pairs",
-		Assumptions: []string{"one schedule per dialogue (the property quantifies over inputs and configurations); placeholders in credentials are not exercised; the DNS lookup go-socks5 performs for domain addresses before consulting the rules is not counted as a connection"},
+		Assumptions: []string{"one schedule per dialogue (the property quantifies over inputs and configurations); placeholders: configurations with at most one command are also provisioned with {env.*} placeholders for the command and the passwords, after a handler with the same raw configuration was provisioned under other values; the DNS lookup go-socks5 performs for domain addresses before consulting the rules is not counted as a connection"},
 		Scenarios:   scenarios,
 		Run: func(tier string, scAny any, rep *runner.Report) {
 			sc := scAny.(*Scn)
